@@ -10,6 +10,7 @@ Oracle ops for the `enc` family: the token-level Encoder (Model/Encoder.lean).
            | T:0:<hex>                       WriteToken(number token whose rendered text is <hex>)
            | T:{ | T:} | T:[ | T:]           WriteToken(BeginObject/EndObject/BeginArray/EndArray)
            | V:<hex>                         WriteValue(bytes)
+           | R                               Encoder.Reset(fresh writer, same options): everything starts afresh
      answer: one `<res>/<OutputOffset>/<StackDepth>/<kind>/<length>` per call, space separated, then ` out=<hex>`
              res    = ok | Ename | Ens | Edepth | Edelim | Emissing      (state machine errors)
                     | Edup | Eutf8 | Eeof | Echar | Eesc | Ebug
@@ -42,7 +43,7 @@ def parseOpts (s : String) : Option Opts :=
   | _ => none
 
 inductive Call where
-  | tok (t : Tok) | val (v : Bytes)
+  | tok (t : Tok) | val (v : Bytes) | reset
 
 def parseCall (s : String) : Option Call :=
   match s.splitOn ":" with
@@ -56,11 +57,13 @@ def parseCall (s : String) : Option Call :=
   | ["T", "s", h] => (bytesOfHex h).map fun b => .tok (.str b)
   | ["T", "0", h] => (bytesOfHex h).map fun b => .tok (.num b)
   | ["V", h] => (bytesOfHex h).map .val
+  | ["R"] => some .reset
   | _ => none
 
 def doCall (e : Enc) : Call → Enc × Option EncErr
   | .tok t => writeToken e t
   | .val v => writeValue e v
+  | .reset => (Encoder.new e.o, none)
 
 def showStep (e : Enc) (r : Option EncErr) : String :=
   let (k, n) := stackIndexLast e
